@@ -13,7 +13,7 @@ pub static DEF: PropDef = PropDef {
     title: "Decoding is total",
     rule: "Inputs: G-wire tapes (valid control/data encodings with 0-3 structural mutations, control headers around generated AVP records, raw octets), \
 the complete grid {attribute type 0..41 and 3 others} x {payload length 0..40} x {H bit, vendor id} x {2 payload fills} as one-record control bodies, \
-and every byte string of length <= 2. Each input is decoded under all 8 option sets and as a bare AVP list, in both build profiles, in a child process \
+every byte string of length <= 2, and every 16-bit value of each enumerated field (message type, error type, proxy type, attribute type, vendor id) inside a control message. Each input is decoded under all 8 option sets and as a bare AVP list, in both build profiles, in a child process \
 (aborts and hangs are observed by the supervisor). Non-trivial = input of at least 2 octets (past the flags guard); distinct by hash of the input octets.",
     assumptions: &[
         "non-termination is decided by a watchdog (20 s for one case) with re-confirmation, i.e. up to a time bound",
@@ -24,7 +24,7 @@ and every byte string of length <= 2. Each input is decoded under all 8 option s
     run_enum,
     run_concrete,
     both_profiles: true,
-    exhaustive_note: "grid (type x payload length x H/vendor x fill) and all byte strings of length <= 2 are enumerated completely",
+    exhaustive_note: "grid (type x payload length x H/vendor x fill), all byte strings of length <= 2 and all 65 536 values of six enumerated fields are enumerated completely",
 };
 
 pub const GRID_TYPES: usize = 45;
@@ -36,7 +36,7 @@ fn parts(t: Tier) -> Vec<Part> {
         Tier::Quick => 1_200_000,
         Tier::Thorough => 20_000_000,
     };
-    vec![tape("wire", n, 900), enumerate("grid", GRID_SIZE), enumerate("short", 1 + 256 + 65536)]
+    vec![tape("wire", n, 900), enumerate("grid", GRID_SIZE), enumerate("short", 1 + 256 + 65536), enumerate("codes", 65536)]
 }
 
 pub fn grid_type(i: usize) -> u16 {
@@ -203,8 +203,42 @@ fn run_tape(_part: &str, tape: &[u8], cx: &mut Cx) -> Res {
     check_bytes(&b, "wire", cx)
 }
 
+/// every 16-bit value in each enumerated field, inside a control message after a valid Message Type
+pub fn code_inputs(x: u16) -> Vec<Vec<u8>> {
+    let hdr = |body: &[u8]| -> Vec<u8> {
+        let mut w = vec![0x13, 0x20, 0, 0, 0, 1, 0, 2, 0, 3, 0, 4, 0x01, 0x08, 0, 0, 0, 0, 0, 1];
+        w.extend_from_slice(body);
+        let l = w.len() as u16;
+        w[2..4].copy_from_slice(&l.to_be_bytes());
+        w
+    };
+    let xb = x.to_be_bytes();
+    let mut up = vec![0u8; 32];
+    up[1] = 1;
+    for b in up[4..].iter_mut() {
+        *b = b'a';
+    }
+    let mut attr = vec![0x01, 38, 0, 0, xb[0], xb[1]];
+    attr.extend_from_slice(&up);
+    vec![
+        hdr(&[0x01, 0x08, 0, 0, 0, 0, xb[0], xb[1]]),             // message type code x
+        hdr(&[0x01, 0x0a, 0, 0, 0, 1, 0, 1, xb[0], xb[1]]),        // error type x
+        hdr(&[0x01, 0x08, 0, 0, 0, 29, xb[0], xb[1]]),             // proxy authen type x
+        hdr(&attr),                                                 // attribute type x, generous payload
+        hdr(&[0x00, 0x06, 0, 0, xb[0], xb[1]]),                     // attribute type x, empty payload, M clear
+        hdr(&[0x01, 0x08, xb[0], xb[1], 0, 7, 0x41, 0x42]),         // vendor id x
+    ]
+}
+
 fn run_enum(part: &str, index: u64, cx: &mut Cx) -> Res {
     match part {
+        "codes" => {
+            for b in code_inputs(index as u16) {
+                check_bytes(&b, "codes", cx)?;
+                check_bytes(&b[12..], "codes", cx)?;
+            }
+            Ok(())
+        }
         "grid" => check_bytes(&grid_input(index), "grid", cx),
         _ => check_bytes(&short_input(index), "short", cx),
     }
